@@ -1,4 +1,5 @@
 """C10 - union / intersection / difference compute the mathematical result."""
+from ..harness import safe_repr as _srepr  # noqa: E402
 import operator
 
 from .. import families, gen, hist, setops
@@ -221,7 +222,7 @@ def run_case(fam, impl, rng, rec, uni, vals, i):
     want_keys = sort_keys(list(wk))
     snap_a = setops.snapshot(a) if not form.startswith('iop') else None
     snap_b = setops.snapshot(b) if b is not a else None
-    rec.journal(repr((desc, kinda, kindb, brief(ka, 200), brief(kb, 200))))
+    rec.journal(_srepr((desc, kinda, kindb, brief(ka, 200), brief(kb, 200))))
     keep_conns = None
     if i % 5 in (0, 1):
         # operands as they come out of a database: ghosts
